@@ -740,9 +740,31 @@ func (g *Gen) credits(owner string, h *obs.Bal) []*basetypes.Credits {
 		// duplicate batch entry or another batch of the same owner
 		if g.chance(0.5) {
 			out = append(out, &basetypes.Credits{BatchDenom: b.Denom, Amount: g.amountUpTo(third(h.T))})
-		} else if h2 := g.holding(); h2 != nil && obs.Addr(h2.Row.Address) == owner {
-			if b2 := g.V.Batches[h2.Row.BatchKey]; b2 != nil {
-				out = append(out, &basetypes.Credits{BatchDenom: b2.Denom, Amount: g.amountUpTo(h2.T)})
+		} else {
+			// another batch the same owner holds — preferably one of the SAME PROJECT (sibling batches share
+			// project, class and credit type, but nothing else)
+			var sib, any []*obs.Bal
+			for k, bal := range g.V.Balances {
+				if k.Addr != owner || k.BatchKey == h.Row.BatchKey || bal.T == nil || bal.T.Sign() <= 0 {
+					continue
+				}
+				if b2 := g.V.Batches[k.BatchKey]; b2 != nil {
+					any = append(any, bal)
+					if b2.ProjectKey == b.ProjectKey {
+						sib = append(sib, bal)
+					}
+				}
+			}
+			pickFrom := any
+			if len(sib) > 0 && g.chance(0.7) {
+				pickFrom = sib
+			}
+			sort.Slice(pickFrom, func(i, j int) bool { return pickFrom[i].Row.BatchKey < pickFrom[j].Row.BatchKey })
+			if len(pickFrom) > 0 {
+				h2 := pickFrom[g.R.Intn(len(pickFrom))]
+				if b2 := g.V.Batches[h2.Row.BatchKey]; b2 != nil {
+					out = append(out, &basetypes.Credits{BatchDenom: b2.Denom, Amount: g.amountUpTo(third(h2.T))})
+				}
 			}
 		}
 	}
@@ -943,6 +965,17 @@ func (g *Gen) genBridge() *eng.Tx {
 				x := hs[g.R.Intn(len(hs))]
 				if i == 0 && g.chance(0.6) {
 					x = h // the first entry's batch again
+				} else if g.chance(0.5) {
+					// a bound batch of the same project as the first entry's batch
+					if hb := g.V.Batches[h.Row.BatchKey]; hb != nil {
+						for _, y := range hs {
+							if yb := g.V.Batches[y.Row.BatchKey]; yb != nil && yb.ProjectKey == hb.ProjectKey && y.Row.BatchKey != h.Row.BatchKey {
+								if _, bound := g.V.ContractOf[y.Row.BatchKey]; bound {
+									x = y
+								}
+							}
+						}
+					}
 				}
 				if b := g.V.Batches[x.Row.BatchKey]; b != nil {
 					cr = append(cr, &basetypes.Credits{BatchDenom: b.Denom, Amount: g.amountUpTo(new(big.Rat).Quo(x.T, big.NewRat(8, 1)))})
